@@ -4,6 +4,7 @@
 -/
 import AriadneModel.Proofs.C01AbsDefs
 import AriadneModel.Proofs.C01PlainGen
+import AriadneModel.Proofs.C01MixGen
 
 set_option linter.unusedSimpArgs false
 set_option linter.unusedVariables false
@@ -25,15 +26,47 @@ theorem aSels_iff (env : Env) (mk : Nat → Bool) (cn tn : String) (rts : List S
   | nil => simp [aSels]
   | cons s rest ih => simp [aSels, ih]
 
-theorem aSel1_shape {env : Env} {mk : Nat → Bool} {cn tn : String} {rts : List String} {s : Selection}
-    (h : aSel1 env mk cn tn rts s = true) : shapeOK s = true := by
+theorem aSel1_shape' {env : Env} {mk : Nat → Bool} {cn tn : String} {rts : List String} {s : Selection}
+    (h : aSel1 env mk cn tn rts s = true) : shapeOK s = true ∨ isSpreadSel s = true := by
   cases s with
-  | field a n d sid sub => rfl
-  | spread n d => simp [aSel1] at h
+  | field a n d sid sub => exact Or.inl rfl
+  | spread n d => exact Or.inr rfl
   | inline on d sid ss =>
     cases on with
     | none => simp [aSel1] at h
-    | some c => rfl
+    | some c => exact Or.inl rfl
+
+/-- what the tier demands of a spread: a mixin fragment on exactly the (object) type of the class -/
+theorem aSel1_spread {env : Env} {mk : Nat → Bool} {cn tn : String} {rts : List String} {n : String} {d : List Directive}
+    (h : aSel1 env mk cn tn rts (.spread n d) = true) :
+    hasConditionalDirective d = false ∧ env.schema.kindOf? tn = some .object ∧ (∀ rt ∈ rts, rt = tn) ∧
+    ∃ f, findFragment? env.frags n = some f ∧ f.on = tn := by
+  simp only [aSel1, Bool.and_eq_true, Bool.not_eq_true', beq_iff_eq, List.all_eq_true] at h
+  obtain ⟨⟨⟨h1, h2⟩, h3⟩, h4⟩ := h
+  refine ⟨h1, h2, h3, ?_⟩
+  cases hf : findFragment? env.frags n with
+  | none => simp [hf] at h4
+  | some f => exact ⟨f, rfl, by simpa [hf] using h4⟩
+
+/-- a class on a type that is not an object type has no spreads -/
+theorem aSel1_shape {env : Env} {mk : Nat → Bool} {cn tn : String} {rts : List String} {s : Selection}
+    (hk : env.schema.kindOf? tn ≠ some .object) (h : aSel1 env mk cn tn rts s = true) : shapeOK s = true := by
+  rcases aSel1_shape' h with h1 | h1
+  · exact h1
+  · cases s with
+    | spread n d => exact absurd (aSel1_spread h).2.1 hk
+    | field a n d sid sub => simp [isSpreadSel] at h1
+    | inline on d sid ss => simp [isSpreadSel] at h1
+
+/-- what the tier demands of a merged inline fragment -/
+theorem aSel1_inline {env : Env} {mk : Nat → Bool} {cn tn : String} {rts : List String} {c : String} {d : List Directive}
+    {sid : Nat} {ss : List Selection} (h : aSel1 env mk cn tn rts (.inline (some c) d sid ss) = true)
+    (hi : incl env c tn = true) :
+    hasConditionalDirective d = false ∧
+    (∀ y ∈ ss, notTnField y = true ∨ (isSpreadSel y = true ∧ c = tn)) ∧ aSels env mk cn tn rts ss = true := by
+  simp only [aSel1, hi, Bool.not_true, Bool.false_or, Bool.and_eq_true, List.all_eq_true, Bool.not_eq_true',
+    Bool.or_eq_true, beq_iff_eq] at h
+  exact ⟨h.1.1, h.2.1, h.2.2⟩
 
 theorem notTnField_isField {s : Selection} (h : notTnField s = true) : isField s = true := by
   cases s <;> simp [notTnField, isField] at h ⊢
@@ -58,9 +91,9 @@ theorem aSels_flat {env : Env} {mk : Nat → Bool} {cn tn : String} {rts : List 
       simp only [flat1] at hxs
       by_cases hi : incl env c tn = true
       · simp only [hi, if_true] at hxs
-        simp only [aSel1, hi, Bool.not_true, Bool.false_or, Bool.and_eq_true, List.all_eq_true] at h1
-        obtain ⟨_, hnt, hss⟩ := h1
-        exact ⟨notTnField_isField (hnt x hxs), (aSels_iff env mk cn tn rts ss).mp hss x hxs⟩
+        obtain ⟨_, _, hss⟩ := aSel1_inline h1 hi
+        obtain ⟨hxm, hxf⟩ := List.mem_filter.mp hxs
+        exact ⟨hxf, (aSels_iff env mk cn tn rts ss).mp hss x hxm⟩
       · simp [hi] at hxs
 
 theorem flatG_explicit {env : Env} {mk : Nat → Bool} {cn tn : String} {rts : List String} {sel : List Selection}
@@ -84,11 +117,12 @@ theorem flatG_explicit {env : Env} {mk : Nat → Bool} {cn tn : String} {rts : L
         simp only [flat1, isTnSel]
         by_cases hi : incl env c tn = true
         · simp only [hi, if_true]
-          simp only [aSel1, hi, Bool.not_true, Bool.false_or, Bool.and_eq_true, List.all_eq_true] at h1
+          obtain ⟨_, hnt, _⟩ := aSel1_inline h1 hi
           rw [List.any_eq_false]
           intro x hx
-          have := h1.2.1 x hx
-          cases x <;> simp_all [notTnField, isTnSel]
+          obtain ⟨hxm, hxf⟩ := List.mem_filter.mp hx
+          have := hnt x hxm
+          cases x <;> simp_all [notTnField, isTnSel, isSpreadSel, isField]
         · simp [hi]
 
 /-! ### fuel -/
@@ -122,7 +156,7 @@ theorem agfuel_flat (env : Env) (tn : String) (sel : List Selection) (x : Select
     | some c =>
       simp only [flat1] at hxs
       split at hxs
-      · have := agfuel_mem ss x hxs
+      · have := agfuel_mem ss x (List.mem_filter.mp hxs).1
         simp only [agfuel1] at h1
         omega
       · cases hxs
@@ -229,15 +263,16 @@ theorem filterMap_id_map_some (l : List String) : (l.map some).filterMap id = l 
   | nil => rfl
   | cons x xs ih => simp [ih]
 
-theorem parseType_comp (env : Env) (fuel : Nat) (sub : List Selection) (hshape : ∀ s ∈ sub, shapeOK s = true)
-    (T : TypeRef) (hk : isCompositeKind env T.base = true) :
+theorem parseType_comp (env : Env) (fuel : Nat) (sub : List Selection)
+    (T : TypeRef) (hk : isCompositeKind env T.base = true)
+    (hshape : env.schema.kindOf? T.base = some .interface → ∀ s ∈ sub, shapeOK s = true) :
     ∀ (nullable : Bool) (cn : String) (ctx : Ctx),
       parseType env (fuel + 1) sub T nullable cn false ctx =
         .ok (wrapAnn (baseAnnOf env cn T.base sub) nullable T, ctxAfter env ctx cn T.base sub) := by
   induction T with
   | named n =>
     intro nullable cn ctx
-    simp only [TypeRef.base] at hk ⊢
+    simp only [TypeRef.base] at hk hshape ⊢
     unfold parseType
     unfold isCompositeKind at hk
     cases hkind : env.schema.kindOf? n with
@@ -254,6 +289,7 @@ theorem parseType_comp (env : Env) (fuel : Nat) (sub : List Selection) (hshape :
         simp only [wrapAnn, baseAnnOf, isMulti, hkind, ctxAfter, relatedOf, Schema.isAbstract, pure, Except.pure]
         simp [List.map_map, Function.comp_def]
       | interface =>
+        have hshape := hshape hkind
         simp only [hkind, inlineFragmentConds_ok env.frags fuel sub hshape, fragmentsOnSubtype_nil env sub n hshape,
           bind, Except.bind, wrapAnn, baseAnnOf, isMulti, ctxAfter, relatedOf, Schema.isAbstract, pure, Except.pure]
         by_cases he : (inlConds sub).isEmpty = true
@@ -264,26 +300,26 @@ theorem parseType_comp (env : Env) (fuel : Nat) (sub : List Selection) (hshape :
           simp [he', hany, filterMap_id_map_some, List.map_map, Function.comp_def]
   | list t ih =>
     intro nullable cn ctx
-    simp only [TypeRef.base] at hk
+    simp only [TypeRef.base] at hk hshape
     unfold parseType
-    simp [ih hk true cn ctx, bind, Except.bind, pure, Except.pure, wrapAnn, TypeRef.base]
+    simp [ih hk hshape true cn ctx, bind, Except.bind, pure, Except.pure, wrapAnn, TypeRef.base]
   | nonNull t ih =>
     intro nullable cn ctx
-    simp only [TypeRef.base] at hk
+    simp only [TypeRef.base] at hk hshape
     unfold parseType
     simp only [wrapAnn, TypeRef.base]
-    exact ih hk false cn ctx
+    exact ih hk hshape false cn ctx
 
 /-- `parse_operation_field` for a field of composite type -/
 theorem parseOperationField_comp (env : Env) (fuel : Nat) (name : String) (dirs : List Directive) (sub : List Selection)
-    (hshape : ∀ s ∈ sub, shapeOK s = true)
-    (T : TypeRef) (cn : String) (tv : List String) (hn : (name == typenameField) = false)
+    (T : TypeRef) (hshape : env.schema.kindOf? T.base = some .interface → ∀ s ∈ sub, shapeOK s = true)
+    (cn : String) (tv : List String) (hn : (name == typenameField) = false)
     (hk : isCompositeKind env T.base = true) :
     parseOperationField env (fuel + 1) name dirs sub T cn tv =
       .ok (condAnn (annotateTop (wrapAnn (baseAnnOf env cn T.base sub) true T)) dirs, hasConditionalDirective dirs,
            { related := relatedOf env cn T.base sub, abstract := env.schema.isAbstract T.base }) := by
   unfold parseOperationField
-  simp only [hn, Bool.false_and, Bool.false_eq_true, if_false, parseType_comp env fuel sub hshape T hk, bind, Except.bind,
+  simp only [hn, Bool.false_and, Bool.false_eq_true, if_false, parseType_comp env fuel sub T hk hshape, bind, Except.bind,
     parseDirectives_eq, pure, Except.pure, ctxAfter]
   simp
 
@@ -345,11 +381,48 @@ theorem needSids_eq (env : Env) (cn tn : String) : ∀ sel : List Selection,
   | [] => by simp [needSids]
   | s :: rest => by simp [needSids, needSids_eq env cn tn rest]
 
-theorem aExtra_flat (env : Env) (cn tn : String) (sel : List Selection) :
+/-- the content of every merged inline fragment consists of fields and spreads (no nested inline fragment) -/
+def contentOK (env : Env) (tn : String) : Selection → Prop
+  | .inline (some c) _ _ ss => incl env c tn = true → ∀ y ∈ ss, isField y = true ∨ isSpreadSel y = true
+  | _ => True
+
+theorem aSel1_contentOK {env : Env} {mk : Nat → Bool} {cn tn : String} {rts : List String} {s : Selection}
+    (h : aSel1 env mk cn tn rts s = true) : contentOK env tn s := by
+  cases s with
+  | field a n d sid sub => trivial
+  | spread n d => trivial
+  | inline on d sid ss =>
+    cases on with
+    | none => trivial
+    | some c =>
+      intro hi y hy
+      rcases (aSel1_inline h hi).2.1 y hy with h1 | h1
+      · exact Or.inl (notTnField_isField h1)
+      · exact Or.inr h1.1
+
+theorem aSels_contentOK {env : Env} {mk : Nat → Bool} {cn tn : String} {rts : List String} {sel : List Selection}
+    (h : aSels env mk cn tn rts sel = true) : ∀ s ∈ sel, contentOK env tn s :=
+  fun s hs => aSel1_contentOK ((aSels_iff env mk cn tn rts sel).mp h s hs)
+
+/-- a function that yields nothing for spreads does not see them -/
+theorem flatMap_filter_field {β : Type} (g : Selection → List β) (hg : ∀ n d, g (.spread n d) = []) :
+    ∀ (ss : List Selection), (∀ y ∈ ss, isField y = true ∨ isSpreadSel y = true) →
+      ss.flatMap g = (ss.filter isField).flatMap g
+  | [], _ => rfl
+  | y :: rest, h => by
+    have ih := flatMap_filter_field g hg rest (fun z hz => h z (List.mem_cons_of_mem _ hz))
+    have hy := h y List.mem_cons_self
+    cases y with
+    | field a n d sid sub => simp [List.filter_cons, isField, ih]
+    | spread n d => simp [List.filter_cons, isField, hg, ih]
+    | inline on d sid ss' => simp [isField, isSpreadSel] at hy
+
+theorem aExtra_flat (env : Env) (cn tn : String) (sel : List Selection) (hc : ∀ s ∈ sel, contentOK env tn s) :
     aExtra env cn tn sel = (flatG env tn sel).flatMap (aExtra1 env cn tn) := by
   rw [aExtra_eq, flatG, List.flatMap_assoc]
-  congr 1
-  funext s
+  apply C01Mix.flatMap_congr'
+  intro s hs
+  have hcs := hc s hs
   cases s with
   | field a n d sid sub => simp [flat1]
   | spread n d => simp [flat1, aExtra1]
@@ -359,14 +432,17 @@ theorem aExtra_flat (env : Env) (cn tn : String) (sel : List Selection) :
     | some c =>
       simp only [flat1, aExtra1]
       split
-      · rw [aExtra_eq]
+      · rename_i hi
+        rw [aExtra_eq]
+        exact flatMap_filter_field _ (fun n d => by simp [aExtra1]) ss (hcs hi)
       · simp
 
-theorem needSids_flat (env : Env) (cn tn : String) (sel : List Selection) :
+theorem needSids_flat (env : Env) (cn tn : String) (sel : List Selection) (hc : ∀ s ∈ sel, contentOK env tn s) :
     needSids env cn tn sel = (flatG env tn sel).flatMap (needSids1 env cn tn) := by
   rw [needSids_eq, flatG, List.flatMap_assoc]
-  congr 1
-  funext s
+  apply C01Mix.flatMap_congr'
+  intro s hs
+  have hcs := hc s hs
   cases s with
   | field a n d sid sub => simp [flat1]
   | spread n d => simp [flat1, needSids1]
@@ -376,7 +452,9 @@ theorem needSids_flat (env : Env) (cn tn : String) (sel : List Selection) :
     | some c =>
       simp only [flat1, needSids1]
       split
-      · rw [needSids_eq]
+      · rename_i hi
+        rw [needSids_eq]
+        exact flatMap_filter_field _ (fun n d => by simp [needSids1]) ss (hcs hi)
       · simp
 
 theorem aExtra1_tn (env : Env) (cn tn : String) : aExtra1 env cn tn Marks.typenameSel = [] := by
@@ -385,15 +463,15 @@ theorem aExtra1_tn (env : Env) (cn tn : String) : aExtra1 env cn tn Marks.typena
 theorem needSids1_tn (env : Env) (cn tn : String) : needSids1 env cn tn Marks.typenameSel = [] := by
   simp [Marks.typenameSel, needSids1]
 
-theorem rflat_extra (env : Env) (cn tn : String) (a : Bool) (sel : List Selection) :
+theorem rflat_extra (env : Env) (cn tn : String) (a : Bool) (sel : List Selection) (hc : ∀ s ∈ sel, contentOK env tn s) :
     (rflat a env tn sel).flatMap (aExtra1 env cn tn) = aExtra env cn tn sel := by
-  rw [aExtra_flat]
+  rw [aExtra_flat env cn tn sel hc]
   unfold rflat
   split <;> simp [aExtra1_tn]
 
-theorem rflat_need (env : Env) (cn tn : String) (a : Bool) (sel : List Selection) :
+theorem rflat_need (env : Env) (cn tn : String) (a : Bool) (sel : List Selection) (hc : ∀ s ∈ sel, contentOK env tn s) :
     (rflat a env tn sel).flatMap (needSids1 env cn tn) = needSids env cn tn sel := by
-  rw [needSids_flat]
+  rw [needSids_flat env cn tn sel hc]
   unfold rflat
   split <;> simp [needSids1_tn]
 
@@ -401,13 +479,72 @@ theorem rflat_need (env : Env) (cn tn : String) (a : Bool) (sel : List Selection
 
 theorem setUnion_nil (s : List String) : setUnion s [] = s := rfl
 
-theorem resolveLoop_abs (env : Env) (k : Nat) (root : String) {mk : Nat → Bool} {cn : String} {rts : List String} :
-    ∀ (sels : List Selection) (acc : Acc) (s : St), (∀ x ∈ sels, aSel1 env mk cn root rts x = true) →
-      ∃ s', forIn sels acc (resolveBody env (k + 1) root) s = .ok ((acc.1 ++ (flatG env root sels).map toR, acc.2), s') ∧
-        s'.publicNames = s.publicNames ∧ s'.marks = s.marks := by
+theorem rootType_self {env : Env} {c rt : String} (h : inlineFragmentRootType env c c = some rt) : rt = c := by
+  unfold inlineFragmentRootType at h
+  cases hg : env.schema.get? c with
+  | none => simp [hg] at h
+  | some t =>
+    simp only [hg] at h
+    split at h
+    · exact (Option.some.inj h).symm
+    · simp at h; exact h.symm
+
+/-- `_resolve_selection_set` on fields and mixin spreads (the content of a merged inline fragment, or a plain set) -/
+theorem resolveLoop_fs (env : Env) (K : Nat) (hfr : C01Mix.FragsOK env K) (fuel : Nat) (root : String) :
+    ∀ (sels : List Selection) (acc : Acc) (s : St),
+      (∀ x ∈ sels, isField x = true ∨ ∃ n d f, x = Selection.spread n d ∧ findFragment? env.frags n = some f ∧ f.on = root ∧
+          env.schema.kindOf? root = some .object) →
+      forIn sels acc (resolveBody env fuel root) s =
+        .ok ((acc.1 ++ (sels.filter isField).map toR, (sels.filterMap C01Mix.spreadName?).foldl setAdd acc.2), s) := by
   intro sels
   induction sels with
-  | nil => intro acc s _; exact ⟨s, by simp [List.forIn_nil, flatG]; rfl, rfl, rfl⟩
+  | nil => intro acc s _; simp [List.forIn_nil]; rfl
+  | cons x rest ih =>
+    intro acc s h
+    have hx := h x List.mem_cons_self
+    have hr := fun y hy => h y (List.mem_cons_of_mem _ hy)
+    rw [List.forIn_cons]
+    rcases hx with hx | ⟨n, d, f, rfl, hf, hon, hroot⟩
+    · cases x with
+      | field alias name dirs sid sub =>
+        refine run_bind (a := .yield (acc.1 ++ [⟨alias, name, dirs, sid, sub⟩], acc.2)) (s' := s) rfl ?_
+        simp only []
+        rw [ih _ _ hr]
+        simp [isField, toR, C01Mix.spreadName?, List.filter_cons, List.filterMap_cons, List.append_assoc]
+      | spread n d => simp [isField] at hx
+      | inline on d sid ss => simp [isField] at hx
+    · have hnu := (C01Mix.not_unpacked hfr hf).1
+      rw [hon] at hnu
+      refine run_bind (a := .yield (acc.1, setAdd acc.2 n)) (s' := s) ?_ ?_
+      · have h1 : (env.schema.get? root).isNone = false := by
+          have := C01Mix.get_of_kind hroot; cases hg : env.schema.get? root <;> simp_all
+        have h2 : (env.schema.get? f.on).isNone = false := by rw [hon]; exact h1
+        simp only [resolveBody, hf, h1, h2, hnu, Bool.false_eq_true, if_false, Bool.not_false, if_true]
+        rfl
+      · simp only []
+        rw [ih _ _ hr]
+        simp [isField, C01Mix.spreadName?, List.filter_cons, List.filterMap_cons]
+
+theorem resolve_fs (env : Env) (K : Nat) (hfr : C01Mix.FragsOK env K) (fuel : Nat) (root : String) (sels : List Selection) (st : St)
+    (h : ∀ x ∈ sels, isField x = true ∨ ∃ n d f, x = Selection.spread n d ∧ findFragment? env.frags n = some f ∧ f.on = root ∧
+          env.schema.kindOf? root = some .object) :
+    resolve env (fuel + 1) sels root st =
+      .ok (((sels.filter isField).map toR, C01Mix.spreadNames sels),
+           { st with mixins := setUnion st.mixins (C01Mix.spreadNames sels) }) := by
+  rw [resolve_succ]
+  refine run_bind (resolveLoop_fs env K hfr fuel root sels ([], []) st h) ?_
+  refine run_bind (run_modify _ _) ?_
+  simp [run_pure, C01Mix.spreadNames]
+
+theorem resolveLoop_abs (env : Env) (K : Nat) (hfr : C01Mix.FragsOK env K) (k : Nat) (root : String) {mk : Nat → Bool} {cn : String}
+    {rts : List String} :
+    ∀ (sels : List Selection) (acc : Acc) (s : St), (∀ x ∈ sels, aSel1 env mk cn root rts x = true) →
+      ∃ s', forIn sels acc (resolveBody env (k + 1) root) s =
+          .ok ((acc.1 ++ (flatG env root sels).map toR, sels.foldl (gSpreadStep env root) acc.2), s') ∧
+        s'.publicNames = s.publicNames ∧ s'.marks = s.marks ∧ s'.unpacked = s.unpacked := by
+  intro sels
+  induction sels with
+  | nil => intro acc s _; exact ⟨s, by simp [List.forIn_nil, flatG]; rfl, rfl, rfl, rfl⟩
   | cons x rest ih =>
     intro acc s h
     have hx := h x List.mem_cons_self
@@ -415,52 +552,84 @@ theorem resolveLoop_abs (env : Env) (k : Nat) (root : String) {mk : Nat → Bool
     rw [List.forIn_cons]
     cases x with
     | field alias name dirs sid sub =>
-      obtain ⟨s', hrest, h1, h2⟩ := ih (acc.1 ++ [⟨alias, name, dirs, sid, sub⟩], acc.2) s hr
-      refine ⟨s', ?_, h1, h2⟩
+      obtain ⟨s', hrest, h1, h2, h3⟩ := ih (acc.1 ++ [⟨alias, name, dirs, sid, sub⟩], acc.2) s hr
+      refine ⟨s', ?_, h1, h2, h3⟩
       refine run_bind (a := .yield (acc.1 ++ [⟨alias, name, dirs, sid, sub⟩], acc.2)) (s' := s) rfl ?_
       simp only []
       rw [hrest]
-      simp [flatG, flat1, toR, List.append_assoc]
-    | spread n d => simp [aSel1] at hx
+      simp [flatG, flat1, toR, gSpreadStep, List.append_assoc]
+    | spread n d =>
+      obtain ⟨_, hroot, _, f, hf, hon⟩ := aSel1_spread hx
+      have hnu := (C01Mix.not_unpacked hfr hf).1
+      rw [hon] at hnu
+      obtain ⟨s', hrest, h1, h2, h3⟩ := ih (acc.1, setAdd acc.2 n) s hr
+      refine ⟨s', ?_, h1, h2, h3⟩
+      refine run_bind (a := .yield (acc.1, setAdd acc.2 n)) (s' := s) ?_ ?_
+      · have h1' : (env.schema.get? root).isNone = false := by
+          have := C01Mix.get_of_kind hroot; cases hg : env.schema.get? root <;> simp_all
+        have h2' : (env.schema.get? f.on).isNone = false := by rw [hon]; exact h1'
+        simp only [resolveBody, hf, h1', h2', hnu, Bool.false_eq_true, if_false, Bool.not_false, if_true]
+        rfl
+      · simp only []
+        rw [hrest]
+        simp [flatG, flat1, gSpreadStep]
     | inline on d sid ss =>
       cases on with
       | none => simp [aSel1] at hx
       | some c =>
         by_cases hi : incl env c root = true
         · obtain ⟨rt, hrt⟩ := Option.isSome_iff_exists.mp hi
-          simp only [aSel1, hi, Bool.not_true, Bool.false_or, Bool.and_eq_true, List.all_eq_true] at hx
-          have hfields : ∀ y ∈ ss, isField y = true := fun y hy => notTnField_isField (hx.2.1 y hy)
-          obtain ⟨s', hrest, h1, h2⟩ := ih (acc.1 ++ ss.map toR, acc.2) s hr
-          refine ⟨s', ?_, h1, h2⟩
-          refine run_bind (a := .yield (acc.1 ++ ss.map toR, acc.2)) (s' := s) ?_ ?_
+          obtain ⟨_, hcont, hss⟩ := aSel1_inline hx hi
+          have hssl := (aSels_iff env mk cn root rts ss).mp hss
+          have hfs : ∀ y ∈ ss, isField y = true ∨ ∃ n d f, y = Selection.spread n d ∧ findFragment? env.frags n = some f ∧
+              f.on = rt ∧ env.schema.kindOf? rt = some .object := by
+            intro y hy
+            rcases hcont y hy with h1 | ⟨h1, hc⟩
+            · exact Or.inl (notTnField_isField h1)
+            · right
+              cases y with
+              | field a n d' sid' sub => simp [isSpreadSel] at h1
+              | inline on' d' sid' ss' => simp [isSpreadSel] at h1
+              | spread n d' =>
+                obtain ⟨_, hroot, _, f, hf, hon⟩ := aSel1_spread (hssl _ hy)
+                subst hc
+                have hrte := rootType_self hrt
+                subst hrte
+                exact ⟨n, d', f, rfl, hf, hon, hroot⟩
+          obtain ⟨s', hrest, h1, h2, h3⟩ := ih (acc.1 ++ (ss.filter isField).map toR, setUnion acc.2 (C01Mix.spreadNames ss))
+            { s with mixins := setUnion s.mixins (C01Mix.spreadNames ss) } hr
+          refine ⟨s', ?_, h1, h2, h3⟩
+          refine run_bind (a := .yield (acc.1 ++ (ss.filter isField).map toR, setUnion acc.2 (C01Mix.spreadNames ss)))
+            (s' := { s with mixins := setUnion s.mixins (C01Mix.spreadNames ss) }) ?_ ?_
           · simp only [resolveBody, hrt]
-            refine run_bind (resolve_fields env k rt ss s hfields) ?_
-            simp [run_pure, setUnion_nil]
+            refine run_bind (resolve_fs env K hfr k rt ss s hfs) ?_
+            simp [run_pure]
           · simp only []
             rw [hrest]
-            simp [flatG, flat1, hi, List.append_assoc]
+            simp [flatG, flat1, hi, gSpreadStep, List.append_assoc]
         · have hi' : inlineFragmentRootType env c root = none := by
             simpa [incl] using hi
-          obtain ⟨s', hrest, h1, h2⟩ := ih (acc.1, acc.2) { s with dropped := s.dropped ++ [(c, root)] } hr
-          refine ⟨s', ?_, h1, h2⟩
+          have hi'' : incl env c root = false := by simpa using hi
+          obtain ⟨s', hrest, h1, h2, h3⟩ := ih (acc.1, acc.2) { s with dropped := s.dropped ++ [(c, root)] } hr
+          refine ⟨s', ?_, h1, h2, h3⟩
           refine run_bind (a := .yield (acc.1, acc.2)) (s' := { s with dropped := s.dropped ++ [(c, root)] }) ?_ ?_
           · simp only [resolveBody, hi']
             refine run_bind (run_modify _ _) ?_
             rfl
           · simp only []
             rw [hrest]
-            simp [flatG, flat1, hi]
+            simp [flatG, flat1, hi'', gSpreadStep]
 
-theorem resolve_abs (env : Env) (k : Nat) (root : String) {mk : Nat → Bool} {cn : String} {rts : List String}
-    (sels : List Selection) (st : St) (h : ∀ x ∈ sels, aSel1 env mk cn root rts x = true) :
-    ∃ st', resolve env (k + 2) sels root st = .ok (((flatG env root sels).map toR, []), st') ∧
-      st'.publicNames = st.publicNames ∧ st'.marks = st.marks := by
-  obtain ⟨s', hloop, h1, h2⟩ := resolveLoop_abs env k root sels ([], []) st h
-  refine ⟨{ s' with mixins := setUnion s'.mixins [] }, ?_, h1, h2⟩
+theorem resolve_abs (env : Env) (K : Nat) (hfr : C01Mix.FragsOK env K) (k : Nat) (root : String) {mk : Nat → Bool} {cn : String}
+    {rts : List String} (sels : List Selection) (st : St) (h : ∀ x ∈ sels, aSel1 env mk cn root rts x = true) :
+    ∃ st', resolve env (k + 2) sels root st = .ok (((flatG env root sels).map toR, gSpreads env root sels), st') ∧
+      st'.publicNames = st.publicNames ∧ st'.marks = st.marks ∧ st'.unpacked = st.unpacked := by
+  obtain ⟨s', hloop, h1, h2, h3⟩ := resolveLoop_abs env K hfr k root sels ([], []) st h
+  refine ⟨{ s' with mixins := setUnion s'.mixins (gSpreads env root sels) }, ?_, h1, h2, h3⟩
   rw [resolve_succ]
   refine run_bind hloop ?_
   refine run_bind (run_modify _ _) ?_
-  simp [run_pure]
+  simp [run_pure, gSpreads]
 
 theorem any_toR (fl : List Selection) (h : ∀ x ∈ fl, isField x = true) :
     (fl.map toR).any (·.name == typenameField) = fl.any isTnSel := by
@@ -487,7 +656,8 @@ def GenSpec (env : Env) (B : List Nat) (f : Nat) : Prop :=
     ∃ st', parseTypeDefinition env f cn tn sid sel a [] tv st = .ok (aClass env cn tn tv a sel, st') ∧
       st'.publicNames = st.publicNames ++ (aClass env cn tn tv a sel).map (·.name) ∧
       (∀ m ∈ st'.marks, m ∈ B) ∧ (∀ m ∈ st.marks, m ∈ st'.marks) ∧
-      (autoTn a sel = true → sid ∈ st'.marks) ∧ (∀ m ∈ needSids env cn tn sel, m ∈ st'.marks)
+      (autoTn a sel = true → sid ∈ st'.marks) ∧ (∀ m ∈ needSids env cn tn sel, m ∈ st'.marks) ∧
+      st'.unpacked = st.unpacked
 
 /-- the variant classes of one composite position -/
 def variantClasses (env : Env) (rel : List (String × String)) (abs : Bool) (sub : List Selection)
@@ -523,21 +693,21 @@ theorem relatedLoop (env : Env) (B : List Nat) (f : Nat) (IH : GenSpec env B f) 
         s'.publicNames = s.publicNames ++ (variantClasses env rel abs sub ps).map (·.name) ∧
         (∀ m ∈ s'.marks, m ∈ B) ∧ (∀ m ∈ s.marks, m ∈ s'.marks) ∧
         (ps ≠ [] → autoTn abs sub = true → sid ∈ s'.marks) ∧
-        (∀ p ∈ ps, ∀ m ∈ needSids env p.1 p.2 sub, m ∈ s'.marks) := by
+        (∀ p ∈ ps, ∀ m ∈ needSids env p.1 p.2 sub, m ∈ s'.marks) ∧ s'.unpacked = s.unpacked := by
   intro ps
   induction ps with
   | nil =>
     intro acc s _ _ _ hm
     exact ⟨s, by simp [variantClasses]; rfl, by simp [variantClasses], hm, fun m h => h, fun h => absurd rfl h,
-      fun p hp => by cases hp⟩
+      (fun p hp => by cases hp), rfl⟩
   | cons p rest ih =>
     intro acc s hps hnd hfresh hm
     simp only [variantClasses, List.flatMap_cons, List.map_append] at hnd hfresh
     obtain ⟨hnd1, hnd2, hdisj⟩ := List.nodup_append.mp hnd
     obtain ⟨hp1, hp2⟩ := hps p List.mem_cons_self
-    obtain ⟨s1, hrun, hpn1, hB1, hmono1, hsid1, hneed1⟩ := IH p.1 p.2 (rtsOf p) sid sub abs (tvOf env rel p.2) s hfu hp1 hp2 hB hm
+    obtain ⟨s1, hrun, hpn1, hB1, hmono1, hsid1, hneed1, hup1⟩ := IH p.1 p.2 (rtsOf p) sid sub abs (tvOf env rel p.2) s hfu hp1 hp2 hB hm
       hnd1 (fun n hn => hfresh n (List.mem_append_left _ hn))
-    obtain ⟨s2, hrest, hpn2, hB2, hmono2, hsid2, hneed2⟩ := ih (acc ++ aClass env p.1 p.2 (tvOf env rel p.2) abs sub) s1
+    obtain ⟨s2, hrest, hpn2, hB2, hmono2, hsid2, hneed2, hup2⟩ := ih (acc ++ aClass env p.1 p.2 (tvOf env rel p.2) abs sub) s1
       (fun q hq => hps q (List.mem_cons_of_mem _ hq)) hnd2
       (fun n hn => by
         rw [hpn1]
@@ -545,7 +715,7 @@ theorem relatedLoop (env : Env) (B : List Nat) (f : Nat) (IH : GenSpec env B f) 
         rcases List.mem_append.mp hmem with h | h
         · exact hfresh n (List.mem_append_right _ hn) h
         · exact hdisj _ h _ hn rfl) hB1
-    refine ⟨s2, ?_, ?_, hB2, fun m h => hmono2 m (hmono1 m h), ?_, ?_⟩
+    refine ⟨s2, ?_, ?_, hB2, fun m h => hmono2 m (hmono1 m h), ?_, ?_, by rw [hup2, hup1]⟩
     · rw [List.forIn_cons]
       refine run_bind (a := .yield (acc ++ aClass env p.1 p.2 (tvOf env rel p.2) abs sub)) (s' := s1) ?_ ?_
       · unfold relatedBody
@@ -580,7 +750,7 @@ theorem fieldBody_abs (env : Env) (B : List Nat) (f : Nat) (IH : GenSpec env B f
                      acc.2 ++ aExtra1 env cn tn (.field alias name dirs sid sub)), s') ∧
       s'.publicNames = s.publicNames ++ (aExtra1 env cn tn (.field alias name dirs sid sub)).map (·.name) ∧
       (∀ m ∈ s'.marks, m ∈ B) ∧ (∀ m ∈ s.marks, m ∈ s'.marks) ∧
-      (∀ m ∈ needSids1 env cn tn (.field alias name dirs sid sub), m ∈ s'.marks) := by
+      (∀ m ∈ needSids1 env cn tn (.field alias name dirs sid sub), m ∈ s'.marks) ∧ s'.unpacked = s.unpacked := by
   simp only [aSel1, Bool.and_eq_true] at hl
   obtain ⟨hmix, hcase⟩ := hl
   have hmix' : (dirs.any (·.name == Tables.mixinName)) = false := by simpa using hmix
@@ -612,7 +782,7 @@ theorem fieldBody_abs (env : Env) (B : List Nat) (f : Nat) (IH : GenSpec env B f
         refine ⟨t, _, _, ctx, hT, hpo, ?_⟩
         simp only [aDecl, hname, hte', Bool.not_false, Bool.and_self, if_true, isUnionAnn]
     obtain ⟨t, ann, dflt, ctx, hT, hpo, hdecl⟩ := hboth
-    refine ⟨bump s ctx, ?_, ?_, hm, fun m h => h, ?_⟩
+    refine ⟨bump s ctx, ?_, ?_, hm, fun m h => h, ?_, rfl⟩
     · unfold fieldBody
       refine run_bind (a := t) (s' := s) (by show ResultTypes.liftExcept (fieldTypeFromSchema env tn name) s = _; rw [hT]; rfl) ?_
       refine run_bind (s' := s) (by
@@ -640,7 +810,7 @@ theorem fieldBody_abs (env : Env) (B : List Nat) (f : Nat) (IH : GenSpec env B f
         (subClass env cn alias name) tv hnameP hcase
       have hex : aExtra1 env cn tn (.field alias name dirs sid sub) = [] := by simp [aExtra1, hsub]
       have hns : needSids1 env cn tn (.field alias name dirs sid sub) = [] := by simp [needSids1, hsub]
-      refine ⟨bump s ctx, ?_, ?_, hm, fun m h => h, ?_⟩
+      refine ⟨bump s ctx, ?_, ?_, hm, fun m h => h, ?_, rfl⟩
       · unfold fieldBody
         refine run_bind (a := fieldT env tn name) (s' := s) (by show ResultTypes.liftExcept (fieldTypeFromSchema env tn name) s = _; rw [hT]; rfl) ?_
         refine run_bind (s' := s) (by
@@ -673,19 +843,27 @@ theorem fieldBody_abs (env : Env) (B : List Nat) (f : Nat) (IH : GenSpec env B f
         have := hvars p hp
         simp only [Bool.and_eq_true, Bool.not_eq_true'] at this
         exact ⟨this.2, fun _ hte => by rw [this.1.1] at hte; cases hte⟩
-      -- the shape of the sub-selection, from the first variant
-      have hshape : ∀ x ∈ sub, shapeOK x = true := by
-        cases hrel : relatedOf env (subClass env cn alias name) (subType env tn name) sub with
-        | nil => simp [hrel] at hne
-        | cons p rest =>
-          have := (hvars' p (by rw [hrel]; exact List.mem_cons_self)).1
-          intro x hx
-          exact aSel1_shape ((aSels_iff _ _ _ _ _ _).mp this x hx)
-      have hpo := parseOperationField_comp env (f + 1) name dirs sub hshape (fieldT env tn name)
+      -- at an interface position the sub-selection has no spreads: the interface itself is a variant
+      have hshape : env.schema.kindOf? (fieldT env tn name).base = some .interface → ∀ x ∈ sub, shapeOK x = true := by
+        intro hki
+        have hki' : env.schema.kindOf? (subType env tn name) = some .interface := hki
+        have hp : ∃ p ∈ relatedOf env (subClass env cn alias name) (subType env tn name) sub, p.2 = subType env tn name := by
+          unfold relatedOf
+          rw [hki']
+          by_cases he : (inlConds sub).isEmpty = true
+          · simp only [he, if_true]
+            exact ⟨(_, _), List.mem_singleton.mpr rfl, rfl⟩
+          · simp only [he]
+            exact ⟨(_, _), List.mem_cons_self, rfl⟩
+        obtain ⟨p, hp, hp2⟩ := hp
+        have := (hvars' p hp).1
+        intro x hx
+        exact aSel1_shape (by rw [hp2, hki']; simp) ((aSels_iff _ _ _ _ _ _).mp this x hx)
+      have hpo := parseOperationField_comp env (f + 1) name dirs sub (fieldT env tn name) hshape
         (subClass env cn alias name) tv hname' hkind
       rw [aExtra1_field _ _ _ _ _ _ _ _ hsub' hname'] at hnd hfresh ⊢
       rw [needSids1_field _ _ _ _ _ _ _ _ hsub' hname']
-      obtain ⟨s1, hloop, hpn, hB1, hmono, hsid, hneed⟩ := relatedLoop env B f IH sid sub
+      obtain ⟨s1, hloop, hpn, hB1, hmono, hsid, hneed, hup⟩ := relatedLoop env B f IH sid sub
         (relatedOf env (subClass env cn alias name) (subType env tn name) sub)
         (env.schema.isAbstract (subType env tn name))
         (fun p => (Exec.runtimeTypes env.schema (subType env tn name)).filter
@@ -693,7 +871,7 @@ theorem fieldBody_abs (env : Env) (B : List Nat) (f : Nat) (IH : GenSpec env B f
         hfu hmk
         (relatedOf env (subClass env cn alias name) (subType env tn name) sub) [] s hvars' hnd hfresh hm
       refine ⟨bump s1 { related := relatedOf env (subClass env cn alias name) (subType env tn name) sub,
-                        abstract := env.schema.isAbstract (subType env tn name) }, ?_, hpn, hB1, hmono, ?_⟩
+                        abstract := env.schema.isAbstract (subType env tn name) }, ?_, hpn, hB1, hmono, ?_, hup⟩
       · unfold fieldBody
         refine run_bind (a := fieldT env tn name) (s' := s) (by show ResultTypes.liftExcept (fieldTypeFromSchema env tn name) s = _; rw [hT]; rfl) ?_
         refine run_bind (s' := s) (by
@@ -736,12 +914,12 @@ theorem fieldLoop_abs (env : Env) (B : List Nat) (f : Nat) (IH : GenSpec env B f
           .ok ((acc.1 ++ fl.flatMap (aDecl1 env cn tn tv), acc.2 ++ fl.flatMap (aExtra1 env cn tn)), s') ∧
         s'.publicNames = s.publicNames ++ (fl.flatMap (aExtra1 env cn tn)).map (·.name) ∧
         (∀ m ∈ s'.marks, m ∈ B) ∧ (∀ m ∈ s.marks, m ∈ s'.marks) ∧
-        (∀ m ∈ fl.flatMap (needSids1 env cn tn), m ∈ s'.marks) := by
+        (∀ m ∈ fl.flatMap (needSids1 env cn tn), m ∈ s'.marks) ∧ s'.unpacked = s.unpacked := by
   intro fl
   induction fl with
   | nil =>
     intro acc s _ _ _ _ _ hm
-    exact ⟨s, by simp; rfl, by simp, hm, fun m h => h, fun m h => by simp at h⟩
+    exact ⟨s, by simp; rfl, by simp, hm, fun m h => h, fun m h => by simp at h, rfl⟩
   | cons x rest ih =>
     intro acc s hloc htv hfu hnd hfresh hm
     obtain ⟨hxf, hx⟩ := hloc x List.mem_cons_self
@@ -751,10 +929,10 @@ theorem fieldLoop_abs (env : Env) (B : List Nat) (f : Nat) (IH : GenSpec env B f
     | field alias name dirs sid sub =>
       simp only [List.flatMap_cons, List.map_append] at hnd hfresh
       obtain ⟨hnd1, hnd2, hdisj⟩ := List.nodup_append.mp hnd
-      obtain ⟨s1, hstep, hpn1, hB1, hmono1, hneed1⟩ := fieldBody_abs env B f IH cn tn rts tv alias name dirs sid sub acc s hx
+      obtain ⟨s1, hstep, hpn1, hB1, hmono1, hneed1, hup1⟩ := fieldBody_abs env B f IH cn tn rts tv alias name dirs sid sub acc s hx
         (fun hn => htv (by simp [isTnSel, hn])) (hfu _ List.mem_cons_self) hnd1
         (fun n hn => hfresh n (List.mem_append_left _ hn)) hm
-      obtain ⟨s2, hrest, hpn2, hB2, hmono2, hneed2⟩ := ih
+      obtain ⟨s2, hrest, hpn2, hB2, hmono2, hneed2, hup2⟩ := ih
         (acc.1 ++ [aDecl env cn tn tv alias name dirs sub], acc.2 ++ aExtra1 env cn tn (.field alias name dirs sid sub)) s1
         (fun y hy => hloc y (List.mem_cons_of_mem _ hy))
         (fun h => htv (by simp [h]))
@@ -765,7 +943,7 @@ theorem fieldLoop_abs (env : Env) (B : List Nat) (f : Nat) (IH : GenSpec env B f
           rcases List.mem_append.mp hmem with h | h
           · exact hfresh n (List.mem_append_right _ hn) h
           · exact hdisj _ h _ hn rfl) hB1
-      refine ⟨s2, ?_, ?_, hB2, fun m h => hmono2 m (hmono1 m h), ?_⟩
+      refine ⟨s2, ?_, ?_, hB2, fun m h => hmono2 m (hmono1 m h), ?_, by rw [hup2, hup1]⟩
       · simp only [List.map_cons, toR]
         rw [List.forIn_cons]
         refine run_bind hstep ?_
@@ -806,20 +984,21 @@ theorem agfuel_rflat (a : Bool) (env : Env) (tn : String) (sel : List Selection)
 theorem toR_tn : toR Marks.typenameSel = typenameRField := rfl
 
 /-- **part (1), all fuels** -/
-theorem gen_spec (env : Env) (B : List Nat) : ∀ f : Nat, GenSpec env B f
+theorem gen_spec (env : Env) (K : Nat) (hfr : C01Mix.FragsOK env K) (B : List Nat) : ∀ f : Nat, GenSpec env B f
   | 0 => by
     intro cn tn rts sid sel a tv st hfu; have := agfuel_ge sel; omega
   | 1 => by
     intro cn tn rts sid sel a tv st hfu; have := agfuel_ge sel; omega
   | f + 2 => by
     intro cn tn rts sid sel a tv st hfu hloc htv hB hm hnd hfresh
-    have IH := gen_spec env B f
+    have IH := gen_spec env K hfr B f
     have hlocs := (aSels_iff env B.contains cn tn rts sel).mp hloc
+    have hcont := aSels_contentOK hloc
     simp only [aClass, List.map_cons, List.nodup_cons] at hnd
     have hcn : st.publicNames.contains cn = false := by
       have := hfresh cn (by simp [aClass])
       simpa using this
-    obtain ⟨st1, hres, hpn1, hmk1⟩ := resolve_abs env f tn sel { st with publicNames := st.publicNames ++ [cn] } hlocs
+    obtain ⟨st1, hres, hpn1, hmk1, hup1⟩ := resolve_abs env K hfr f tn sel { st with publicNames := st.publicNames ++ [cn] } hlocs
     have hfl := rflat_spec a hloc
     have hflat := aSels_flat hloc
     have hany : ((flatG env tn sel).map toR).any (·.name == typenameField) = explicitTn sel := by
@@ -827,28 +1006,28 @@ theorem gen_spec (env : Env) (B : List Nat) : ∀ f : Nat, GenSpec env B f
     -- the state right before the field loop, and the field nodes
     have key : ∀ (s : St), s.publicNames = st.publicNames ++ [cn] → (∀ m ∈ s.marks, m ∈ B) → (∀ m ∈ st.marks, m ∈ s.marks) →
         (autoTn a sel = true → sid ∈ s.marks) →
-        ∃ s', classTail env (f + 1) cn tn tv [] [] ((rflat a env tn sel).map toR) s = .ok (aClass env cn tn tv a sel, s') ∧
+        ∃ s', classTail env (f + 1) cn tn tv [] (gSpreads env tn sel) ((rflat a env tn sel).map toR) s = .ok (aClass env cn tn tv a sel, s') ∧
           s'.publicNames = st.publicNames ++ (aClass env cn tn tv a sel).map (·.name) ∧
           (∀ m ∈ s'.marks, m ∈ B) ∧ (∀ m ∈ st.marks, m ∈ s'.marks) ∧
-          (autoTn a sel = true → sid ∈ s'.marks) ∧ (∀ m ∈ needSids env cn tn sel, m ∈ s'.marks) := by
+          (autoTn a sel = true → sid ∈ s'.marks) ∧ (∀ m ∈ needSids env cn tn sel, m ∈ s'.marks) ∧ s'.unpacked = s.unpacked := by
       intro s hspn hsB hsmono hssid
-      obtain ⟨s', hloop, hpn, hB', hmono', hneed'⟩ := fieldLoop_abs env B f IH cn tn rts tv (rflat a env tn sel) ([], []) s hfl htv
+      obtain ⟨s', hloop, hpn, hB', hmono', hneed', hup'⟩ := fieldLoop_abs env B f IH cn tn rts tv (rflat a env tn sel) ([], []) s hfl htv
         (fun x hx => Nat.le_trans (agfuel_rflat a env tn sel x hx) hfu)
-        (by rw [rflat_extra]; exact hnd.2)
+        (by rw [rflat_extra _ _ _ _ _ hcont]; exact hnd.2)
         (fun n hn => by
-          rw [rflat_extra] at hn
+          rw [rflat_extra _ _ _ _ _ hcont] at hn
           rw [hspn]
           intro hmem
           rcases List.mem_append.mp hmem with h | h
           · exact hfresh n (by simp only [aClass, List.map_cons]; exact List.mem_cons_of_mem _ hn) h
           · have : n = cn := by simpa using h
             exact hnd.1 (this ▸ hn)) hsB
-      refine ⟨s', ?_, ?_, hB', fun m h => hmono' m (hsmono m h), fun h => hmono' _ (hssid h), ?_⟩
+      refine ⟨s', ?_, ?_, hB', fun m h => hmono' m (hsmono m h), fun h => hmono' _ (hssid h), ?_, hup'⟩
       · unfold classTail
         refine run_bind hloop ?_
-        simp [run_pure, aClass, rflat_extra]
-      · rw [hpn, hspn, rflat_extra]; simp [aClass, List.append_assoc]
-      · rw [rflat_need] at hneed'; exact hneed'
+        simp [run_pure, aClass, aBases, rflat_extra _ _ _ _ _ hcont]
+      · rw [hpn, hspn, rflat_extra _ _ _ _ _ hcont]; simp [aClass, List.append_assoc]
+      · rw [rflat_need _ _ _ _ _ hcont] at hneed'; exact hneed'
     rw [parseTypeDefinition_succ]
     by_cases hauto : autoTn a sel = true
     · -- the automatic `__typename` is (or already was) inserted
@@ -859,9 +1038,9 @@ theorem gen_spec (env : Env) (B : List Nat) : ∀ f : Nat, GenSpec env B f
       have ha : a = true := by simp only [autoTn, Bool.and_eq_true] at hauto; exact hauto.1
       subst ha
       by_cases hmarked : st1.marks.contains sid = true
-      · obtain ⟨s', hct, h1, h2, h3, h4, h5⟩ := key st1 hpn1 (by rw [hmk1]; exact hm) (by rw [hmk1]; exact fun m h => h)
+      · obtain ⟨s', hct, h1, h2, h3, h4, h5, h6⟩ := key st1 hpn1 (by rw [hmk1]; exact hm) (by rw [hmk1]; exact fun m h => h)
           (fun _ => by simpa using hmarked)
-        refine ⟨s', ?_, h1, h2, h3, h4, h5⟩
+        refine ⟨s', ?_, h1, h2, h3, h4, h5, by rw [h6, hup1]⟩
         refine run_bind (run_get st) ?_
         simp only [hcn, Bool.false_eq_true, if_false]
         refine run_bind (run_modify _ _) ?_
@@ -872,7 +1051,7 @@ theorem gen_spec (env : Env) (B : List Nat) : ∀ f : Nat, GenSpec env B f
         rw [hrf, List.map_cons, toR_tn] at hct
         exact hct
       · have hmarked' : st1.marks.contains sid = false := by simpa using hmarked
-        obtain ⟨s', hct, h1, h2, h3, h4, h5⟩ := key { st1 with marks := st1.marks ++ [sid] } hpn1
+        obtain ⟨s', hct, h1, h2, h3, h4, h5, h6⟩ := key { st1 with marks := st1.marks ++ [sid] } hpn1
           (by
             intro m hmm
             rcases List.mem_append.mp hmm with h | h
@@ -881,7 +1060,7 @@ theorem gen_spec (env : Env) (B : List Nat) : ∀ f : Nat, GenSpec env B f
               exact this ▸ hsidB)
           (by intro m h; exact List.mem_append_left _ (hmk1 ▸ h))
           (fun _ => by simp)
-        refine ⟨s', ?_, h1, h2, h3, h4, h5⟩
+        refine ⟨s', ?_, h1, h2, h3, h4, h5, by rw [h6]; exact hup1⟩
         refine run_bind (run_get st) ?_
         simp only [hcn, Bool.false_eq_true, if_false]
         refine run_bind (run_modify _ _) ?_
@@ -903,9 +1082,9 @@ theorem gen_spec (env : Env) (B : List Nat) : ∀ f : Nat, GenSpec env B f
           have h3 : B.contains sid = true := by simpa using h2
           rw [hsidB] at h3; cases h3
       have hrf : rflat a env tn sel = flatG env tn sel := by simp [rflat, hauto']
-      obtain ⟨s', hct, h1, h2, h3, h4, h5⟩ := key st1 hpn1 (by rw [hmk1]; exact hm) (by rw [hmk1]; exact fun m h => h)
+      obtain ⟨s', hct, h1, h2, h3, h4, h5, h6⟩ := key st1 hpn1 (by rw [hmk1]; exact hm) (by rw [hmk1]; exact fun m h => h)
         (fun h => by rw [hauto'] at h; cases h)
-      refine ⟨s', ?_, h1, h2, h3, h4, h5⟩
+      refine ⟨s', ?_, h1, h2, h3, h4, h5, by rw [h6, hup1]⟩
       refine run_bind (run_get st) ?_
       simp only [hcn, Bool.false_eq_true, if_false]
       refine run_bind (run_modify _ _) ?_
